@@ -22,7 +22,8 @@
 (*                               period although nothing is being held     *)
 (*   Bulk{last}                  unrecorded helper exchanges moved the id  *)
 (*                               counter; last = last id they used         *)
-(* Silent (inferred by TLC): AddQueue EarlyClosed TakeReply SeeClose SeeCtx*)
+(* Silent (inferred by TLC): AddQueue EarlyClosed WriteFailClose TakeReply  *)
+(* SeeClose SeeCtx                                                         *)
 (* DelQueue Dispatch ReaderClose ReaderDies.                               *)
 (* The invariants of the property under check (constant Props) are         *)
 (* conjoined to every step: a trace is accepted iff SOME behaviour of the  *)
@@ -111,7 +112,7 @@ Logged ==
 Silent ==
     /\ l <= Len(Trace)
     /\ UNCHANGED l
-    /\ \/ \E c \in Callers : AddQueue(c) \/ EarlyClosed(c) \/ TakeReply(c) \/ SeeClose(c) \/ SeeCtx(c) \/ DelQueue(c)
+    /\ \/ \E c \in Callers : AddQueue(c) \/ EarlyClosed(c) \/ WriteFailClose(c) \/ TakeReply(c) \/ SeeClose(c) \/ SeeCtx(c) \/ DelQueue(c)
        \/ Dispatch \/ ReaderClose \/ ReaderDies
 
 PropInv ==
